@@ -682,6 +682,52 @@ func c20CheckDescCase(c c20DescCase) engine.Result {
 	return res
 }
 
+// ---- scenario "concurrent-decoders": read-only decoders on separate objects, called at the same time
+
+type c20ConcCase struct {
+	Family int `json:"family"`
+}
+
+// c20CheckConcurrent: 8 goroutines decode 8 different descriptors of one family over and over; every answer is the
+// one of the goroutine's own descriptor. NOT an enumeration of interleavings (the decoders are plain functions on
+// separate objects and must not share anything); a free-running probe that can only fail when an answer is wrong.
+func c20CheckConcurrent(c c20ConcCase) engine.Result {
+	var res engine.Result
+	bodies := c20Bodies(c.Family, false)
+	T := c20FamTag[c.Family]
+	const G, iters = 8, 4000
+	var wg sync.WaitGroup
+	var mu sync.Mutex
+	for g := 0; g < G; g++ {
+		b := bodies[(g*len(bodies)/G+g)%len(bodies)]
+		wg.Add(1)
+		go func(g int, b c20Body) {
+			defer wg.Done()
+			d := psi.NewPmtDescriptor(uint8(T), append([]byte{}, b.body...))
+			var local engine.Result
+			defer func() {
+				if r := recover(); r != nil {
+					local.Failf("concurrent|panic", "goroutine %d: %v", g, r)
+				}
+				mu.Lock()
+				res.Fail = append(res.Fail, local.Fail...)
+				res.Evals += local.Evals
+				mu.Unlock()
+			}()
+			for i := 0; i < iters && len(local.Fail) == 0; i++ {
+				c20CheckDesc(&local, "concurrent-callers", d, T, c.Family, b)
+			}
+		}(g, b)
+	}
+	wg.Wait()
+	if len(res.Fail) > 4 {
+		res.Fail = res.Fail[:4]
+	}
+	res.Nontrivial = res.Evals
+	res.Outcome(c.Family)
+	return res
+}
+
 func init() {
 	engine.Register(&engine.Property{
 		ID: "C20", Title: "Stream-type classification and PMT descriptor decoders match their definitions", Level: "model_checking",
@@ -707,6 +753,16 @@ func init() {
 					}
 				},
 				Check: witnessEnum(c20CheckDescCase, witnessPSI), Batch: 1,
+			},
+			&engine.Enum[c20ConcCase]{
+				Name: "concurrent-decoders",
+				Rule: "for each of the five decoded families: 8 goroutines decode 8 different well-formed descriptors of the family 4000 times each AT THE SAME TIME (separate descriptor objects, read-only decoders): every answer is the one for the goroutine's own descriptor. Not an enumeration of interleavings - a free-running probe for state shared between decoder calls (a package-level scratch buffer); it can only fail on a wrong answer",
+				Gen: func(r *engine.Run, emit func(c20ConcCase)) {
+					for f := 0; f < famOpaque; f++ {
+						emit(c20ConcCase{f})
+					}
+				},
+				Check: c20CheckConcurrent, Batch: 1,
 			},
 		},
 	})
